@@ -8,6 +8,7 @@ import (
 // Pipe is a connection between two ports.
 func Pipe() (*InPort, *OutPort) {
 	inPort, outPort := NewIn(), NewOut()
+	tracer := packet.NewTracer()
 
 	inPort.AddListener(ListenFunc(func(proc *process.Process) {
 		reader := inPort.Open(proc)
@@ -17,22 +18,18 @@ func Pipe() (*InPort, *OutPort) {
 			if writer == nil {
 				writer = outPort.Open(proc)
 			}
-			if writer.Write(inPck) == 0 {
-				reader.Receive(inPck)
-			}
+			tracer.Read(reader, inPck)
+			tracer.Write(writer, inPck)
 		}
 	}))
 
 	outPort.AddListener(ListenFunc(func(proc *process.Process) {
-		var reader *packet.Reader
 		writer := outPort.Open(proc)
 
 		for backPck := range writer.Receive() {
-			if reader == nil {
-				reader = inPort.Open(proc)
-			}
-			reader.Receive(backPck)
+			tracer.Receive(writer, backPck)
 		}
+		tracer.Drop(writer)
 	}))
 
 	return inPort, outPort
